@@ -34,6 +34,11 @@ type C16Sc struct {
 	AcceptLatePM   int       `json:"accept_late_pm,omitempty"`
 	Chunk          int       `json:"chunk,omitempty"`
 	Capacity       int       `json:"capacity,omitempty"` // bounded pipes: a response to a client that does not read stays pending in Write
+	// NoHooks: the server has no connect/terminate hook at all (everything else must hold all the same)
+	NoHooks bool `json:"no_hooks,omitempty"`
+	// ServeYields: the goroutine that calls Serve dallies this many scheduling points first, so that Shutdown may
+	// begin, or have returned, before Serve starts: Serve must then return the shutdown error without serving anybody
+	ServeYields int `json:"serve_yields,omitempty"`
 }
 
 var c16Toks = []string{"ok", "ok", "y2,ok", "sl100,ok", "sL100,ok", "sl1000,ok", "sL1000,ok", "sl5000,ok", "sL5000,ok", "sl10000,cx,ok", "sL10000,ok", "et", "ps", "sl2000,et"}
@@ -55,6 +60,10 @@ func genC16(g *simrt.Tape, tier string) any {
 	sc.ShutdownMs = []int{0, 0, 1, 50, 100, 500, 1000, 2000, 6000}[g.Draw(9)]
 	sc.ShutdownYields = g.Draw(12)
 	sc.Second = g.Draw(5) == 0
+	sc.NoHooks = g.Draw(6) == 0
+	if g.Draw(6) == 0 {
+		sc.ServeYields = 1 + g.Draw(40)
+	}
 	if g.Draw(3) == 0 {
 		sc.AcceptLatePM = 300
 	}
@@ -102,13 +111,22 @@ func execC16(x *X, scAny any) {
 		}
 		return h
 	}
+	if sc.NoHooks {
+		for i := range sc.Conns {
+			sc.Conns[i].HookFail = false // nothing can refuse a connection
+		}
+	}
 	failAddr := map[string]bool{}
 	for i, c := range sc.Conns {
 		if c.HookFail {
 			failAddr[fmt.Sprintf("k%d.s.peer", i)] = true
 		}
 	}
+	w.serveYields = sc.ServeYields
 	w.startServerWith(func(string) simnet.EP { return simnet.EP{Chunk: sc.Chunk, Capacity: sc.Capacity} }, sc.AcceptLatePM, func(srv *kmipserver.Server) {
+		if sc.NoHooks {
+			return
+		}
 		srv.WithConnectHook(func(ctx context.Context) (context.Context, error) {
 			addr := kmipserver.RemoteAddr(ctx)
 			simrt.Yield("connect-hook")
